@@ -271,7 +271,7 @@ def run(case, hooks=None):
                 continue
             events.append((cspec.get("t0", 0.0), 0, "start", ci))
             if cspec.get("cancel") is not None:
-                events.append((cspec["cancel"], 1, "cancel", ci))
+                events.append((cspec["cancel"], 1, "cancel_wr" if cspec.get("cancel_with_report") else "cancel", ci))
         for ev in case.get("events", []):
             events.append((ev["t"], 2, ev["what"], ev))
         for inj in case.get("inject", []):
@@ -289,6 +289,17 @@ def run(case, hooks=None):
             elif what == "cancel":
                 if arg in tasks and not tasks[arg].done():
                     tasks[arg].cancel()
+                    recs[arg]["cancel_requested"] = True
+            elif what == "cancel_wr":
+                # the caller's own timeout fires in the very loop iteration in which the next gateway report is read
+                # (the loop was busy for a moment: reader callback first, then the timer): the task is cancelled while
+                # it has already been woken by that report
+                if arg in tasks and not tasks[arg].done():
+                    if sim.gw.pending and sim.deliver():
+                        sim.loop.call_soon(tasks[arg].cancel)
+                        recs[arg]["cancel_coincides_with_report"] = True
+                    else:
+                        tasks[arg].cancel()
                     recs[arg]["cancel_requested"] = True
             elif what == "inject":
                 rep = make_report(drv, arg)
